@@ -99,11 +99,29 @@ class Monitor(object):
             self.armed = False
 
 
+def registry_state():
+    """What the shared pint unit registry knows (pint mode only): names of units, prefixes and suffixes."""
+    import hszinc
+    ureg = getattr(hszinc, 'ureg', None)
+    out = []
+    for attr in ('_units', '_prefixes', '_suffixes', '_dimensions'):
+        d = getattr(ureg, attr, None)
+        if d is not None:
+            try:
+                out.append((attr, len(d), hash(frozenset(d.keys()))))
+            except Exception:   # noqa
+                out.append((attr, len(d), 0))
+    return tuple(out)
+
+
+PINT = [False]
+
+
 def state_snapshot(gf):
     mods = set(sys.modules.keys())
     b = dict((k, id(v)) for k, v in builtins.__dict__.items())
     g = dict((k, id(v)) for k, v in gf.__dict__.items() if not k.startswith('_gen_hsfilter_') and k != '_id_function')
-    return mods, b, g
+    return mods, b, g, (registry_state() if PINT[0] else ())
 
 
 def check_source(src):
@@ -167,7 +185,7 @@ def make_grid(hszinc):
     g = hszinc.Grid(version='3.0', columns=[(c, []) for c in ('id', 'a', 'b', 'c')])
     rows = [{'id': hszinc.Ref('x'), 'a': 'text', 'b': hszinc.MARKER}, {'a': 5.0, 'c': hszinc.MARKER}, {'a': hszinc.Uri('u')},
             {'a': hszinc.XStr('Type', 'x'), 'b': hszinc.MARKER}, {'a': hszinc.Ref('x')}, {'b': hszinc.MARKER},
-            {'a': hszinc.Quantity(5, 'exec')}, {'a': [1.0]}, {'a': {'k': 'v'}}, {'a': hszinc.Bin('text/plain')},
+            {'a': hszinc.Quantity(5, 'kg' if PINT[0] else 'exec')}, {'a': [1.0]}, {'a': {'k': 'v'}}, {'a': hszinc.Bin('text/plain')},
             # a reference target whose id is a plain string, and a row pointing at it
             {'id': 's1', 'a': 'site', 'b': hszinc.MARKER}, {'a': hszinc.Ref('s1'), 'c': hszinc.MARKER}, {'id': 7, 'a': hszinc.Ref('7')},
             # one id on two rows: whichever of them a lookup answers with, it answers the same after a filter ran
@@ -228,6 +246,9 @@ def shards(tier, seed):
     for i in range(n):
         out.append({'part': 'payloads', 'slice': [i, n]})
     out.append({'part': 'xstr'})
+    # the same monitors with pint quantities switched on (hszinc.use_pint()): unit text then reaches a shared registry
+    out.append({'part': 'pint', 'slice': [0, 2]})
+    out.append({'part': 'pint', 'slice': [1, 2]})
     if tier != 'quick':
         for j in range(8):
             out.append({'part': 'random', 'n': 100000 // 8, 'sub': j})
@@ -308,6 +329,9 @@ def evaluate(ctx, mon, hszinc, gf, pp, g, text, pos, payload, grid_snap):
     if after[2] != before[2]:
         diff = sorted(set(k for k, _ in (set(after[2].items()) ^ set(before[2].items()))))
         viol('state:filter-module-globals-changed', 'filter module globals changed: %r' % (diff[:5],))
+    if after[3] != before[3]:
+        viol('state:unit-registry-changed', 'the shared unit registry (hszinc.ureg) changed: %r -> %r' % (
+            [x[:2] for x in before[3]], [x[:2] for x in after[3]]), ['pint-mode'])
     now = grid_snap(g)
     if now != evaluate.snap0:
         parts = [nm for nm, a, b in zip(('content', 'row identities', 'version', 'id lookups'), evaluate.snap0, now) if a != b]
@@ -322,14 +346,20 @@ def evaluate(ctx, mon, hszinc, gf, pp, g, text, pos, payload, grid_snap):
         # error of a well-formed filter is C11's business.  A text that is not a filter is recognised by parse_filter.
         try:
             hszinc.parse_filter(text)
-        except pp.ParseException:
-            viol('non-filter-not-parse-error:' + outcome.split(':')[1], 'not a filter, yet %s was raised instead of ParseException' % outcome)
-        except ValueError:
-            # a literal whose payload is malformed (hex("x"), C(os,1), 5_): rejected while parsing with a
-            # ValueError-family error - counted as "rejected with a parse error"
-            ctx.count('rejected with ValueError from a literal parse action')
         except Exception as e2:   # noqa
-            viol('parse_filter-raises:' + type(e2).__name__, 'parse_filter raised %s for this text' % type(e2).__name__)
+            pintish = PINT[0] and (type(e2).__module__.split('.')[0] in ('pint', 'tokenize') or any(
+                c.__name__ == 'PintError' for c in type(e2).__mro__))
+            if isinstance(e2, pp.ParseException):
+                viol('non-filter-not-parse-error:' + outcome.split(':')[1], 'not a filter, yet %s was raised instead of ParseException' % outcome)
+            elif pintish:
+                # pint mode: the unit text of a quantity literal is handed to pint, which refuses what it does not know
+                ctx.count('quantity literal refused by pint (pint mode, not judged)')
+            elif isinstance(e2, ValueError):
+                # a literal whose payload is malformed (hex("x"), C(os,1), 5_): rejected while parsing with a
+                # ValueError-family error - counted as "rejected with a parse error"
+                ctx.count('rejected with ValueError from a literal parse action')
+            else:
+                viol('parse_filter-raises:' + type(e2).__name__, 'parse_filter raised %s for this text' % type(e2).__name__)
     return outcome
 
 
@@ -338,6 +368,22 @@ def run_shard(spec, ctx):
     import pyparsing as pp
     from hszinc import grid_filter as gf
     from vf import hs
+    if spec['part'] == 'pint':
+        hszinc.use_pint(True)
+        PINT[0] = True
+        if type(hszinc.Quantity(1, 'kg')).__name__ != 'PintQuantity':
+            ctx.inconc('pint mode could not be switched on')
+            return
+        # pint's own lazy work (definition cache, application registry, parser tables) before the hook is armed
+        for txt in ('5kg', '1.5m/s', '2kW', '3zorkmid', '1%', '2ft**2', '1$', '1e'):
+            try:
+                hszinc.ureg(txt)
+            except Exception:   # noqa
+                pass
+            try:
+                hszinc.Quantity(1, txt[1:])
+            except Exception:   # noqa
+                pass
     g = make_grid(hszinc)
 
     def grid_snap(gr):
@@ -349,7 +395,21 @@ def run_shard(spec, ctx):
     if not any(e[0] == 'compile' for e in mon.events) or not any(e[0] == 'open' for e in mon.events):
         ctx.inconc('audit hook self-test saw no compile/open event')
     evaluate.snap0 = grid_snap(g)
-    if spec['part'] == 'payloads':
+    if spec['part'] == 'pint':
+        i, n = spec['slice']
+        k = 0
+        units = ['zorkmid', 'exit', 'kW', 'kg', 'quit', 'os', '_', 'a_b', 'm/s', 'kW/exec', 'open*2', 'lambda', 'import', '%', '$', 'ft**2', 'e', 'E5',
+                 'print', '__import__', 'VF_CANARY', 'x' * 40] + [p for p in PAYLOADS + EXPRS if len(p) < 40]
+        for u in units:
+            for atom in ('a == 5%s' % u, 'a < 1.5%s' % u, 'a->b >= 1%s' % u, 'a == [1%s]' % u, 'a == {k:2%s}' % u, 'a != -3%s' % u):
+                for shape in SHAPES[:4]:
+                    k += 1
+                    if k % n != i:
+                        continue
+                    evaluate(ctx, mon, hszinc, gf, pp, g, shape % atom, 'unit', u, grid_snap)
+                    ctx.count('filters evaluated in pint mode')
+        ctx.sample({'pint_mode_filter': 'a == 5zorkmid', 'registry': [x[:2] for x in registry_state()]})
+    elif spec['part'] == 'payloads':
         i, n = spec['slice']
         allp = PAYLOADS + EXPRS
         k = 0
@@ -411,6 +471,8 @@ def finish(ctx, merged):
     c = merged['counters']
     if c.get('filters evaluated', 0) < 3000:
         ctx.inconclusive.append('filters evaluated: %d' % c.get('filters evaluated', 0))
+    if c.get('filters evaluated in pint mode', 0) < 200:
+        ctx.inconclusive.append('pint mode: %d filters evaluated' % c.get('filters evaluated in pint mode', 0))
     if c.get('audit event compile', 0) == 0:
         ctx.inconclusive.append('the audit hook never saw a compile event for an evaluated filter (AST monitor not observed)')
     if c.get('outcome evaluated', 0) < 200 or c.get('outcome parse-error', 0) < 200:
